@@ -656,6 +656,9 @@ func runC12(r *RunCtx) error {
 		h.e.Close()
 	}
 
+	if err := c12UpgradeTwin(r); err != nil {
+		return err
+	}
 	amounts := []int64{1, 2, 3, 7, 999, 13_999, 1_000_000, 1_000_000_007, 1_000_000_000_001, 1_000_000_000_000_000, 999_999_999_999_999_999, 1_000_000_000_000_000_000, 9_000_000_000_000_000_000}
 	durs := []time.Duration{999, 1000, 1001, 10_000, 12_345_678, time.Second, 997 * time.Second, time.Hour, day, 30 * day, 365 * day, 1<<63 - 1, 0, -5}
 	denoms := []string{"uatom", "ujkl", "uusdc"}
